@@ -279,6 +279,22 @@ impl<Config: endpoint::Config> Path<Config> {
             self.handle.maybe_update(path_handle);
         }
 
+        //= https://www.rfc-editor.org/rfc/rfc9000#section-8.1
+        //# Prior to validating the client address, servers MUST NOT send more
+        //# than three times as many bytes as the number of bytes they have
+        //# received.
+        // Before the handshake is confirmed, datagrams from other remote addresses are still
+        // handled on this path, but this path only transmits to its own remote address. Bytes
+        // that arrived from somewhere else must not raise the amount that may be sent there.
+        if Config::ENDPOINT_TYPE.is_server()
+            && !self
+                .handle
+                .remote_address()
+                .unmapped_eq(&path_handle.remote_address())
+        {
+            return Ok(AmplificationOutcome::Unchanged);
+        }
+
         let amplification_outcome = self.on_bytes_received(datagram.payload_len);
 
         Ok(amplification_outcome)
